@@ -383,11 +383,19 @@ func (r *runner) crashAndRestart(downtime int) {
 		if snap.SessionFiles[id] || snap.PendingStops[id] {
 			continue // durable: restart must produce the Stop
 		}
+		attempted := false // a Stop for the session reached the server (and was rejected)
+		for _, e := range log {
+			attempted = attempted || (e.SID == id && e.Type == tStop)
+		}
 		switch {
-		case st.startEpoch < r.epoch:
+		case st.startEpoch < r.epoch && attempted:
 			st.lostClass = "recovered-stop-only-in-memory"
-		case st.stopCalled && st.stopEpoch == r.epoch:
+		case st.startEpoch < r.epoch:
+			st.lostClass = "dropped-by-recovery-without-attempt"
+		case st.stopCalled && st.stopEpoch == r.epoch && attempted:
 			st.lostClass = "failed-stop-only-in-memory"
+		case st.stopCalled && st.stopEpoch == r.epoch:
+			st.lostClass = "crash-in-stopsession-nothing-durable"
 		case !st.startReturned:
 			st.lostClass = "crash-in-startsession-before-persist"
 		default:
